@@ -141,6 +141,11 @@ def check_fuse(tier, twin=False, names_i=0):
         # repeated fusion of an already fused stream
         fused2, idmap2 = fuse_statement_streams_with_unique_ids(fused, sb)
         bad += ["refuse: " + b for b in check_fused(fused, sb, fused2, idmap2)]
+        # the streams may be any iterables (one-shot iterators, generators), with the same outcome
+        fused3, idmap3 = fuse_statement_streams_with_unique_ids(iter(list(sa)), (s_ for s_ in sb))
+        if [(s_.id, sorted(s_.depends_on)) for s_ in fused3] != [(s_.id, sorted(s_.depends_on)) for s_ in fused] or idmap3 != idmap:
+            bad.append(f"streams given as one-shot iterators fuse differently: ids {[s_.id for s_ in fused3]} instead of "
+                       f"{[s_.id for s_ in fused]}")
         if twin:
             bad = bad or ["twin"] if len({s.id for s in fused}) == len(fused) and ai[0] == 0 else bad
         return (ai, bp, deps), bad
